@@ -263,6 +263,61 @@ fn revoked_htlc_claim_probe(a: &mut Vec<i128>) -> String {
 	res
 }
 
+/// counterparty_claim_probe <has_output 0/1> <offered_by_counterparty 0/1> <preimage_known 0/1>
+/// Node 0 broadcasts its CURRENT commitment, which holds one pending HTLC (3 000 sat, or a 100 sat dust HTLC;
+/// offered by node 0 - optionally with node 1 already knowing the preimage - or offered by node 1), and it confirms
+/// on node 1's chain. Output: 1 if node 1's monitor then tracks a claim for that HTLC's output (pursued already
+/// or waiting for its locktime), the counterparty-spendable height of that claim minus the HTLC's CLTV expiry, and
+/// whether the commitment has such an output at all.
+fn counterparty_claim_probe(a: &mut Vec<i128>) -> String {
+	use lightning::chain::channelmonitor::Balance;
+	let (has_output, offered, known) = (a[0] != 0, a[1] != 0, a[2] != 0);
+	let chanmon_cfgs = create_chanmon_cfgs(2);
+	let node_cfgs = create_node_cfgs(2, &chanmon_cfgs);
+	let node_chanmgrs = create_node_chanmgrs(2, &node_cfgs, &[None, None]);
+	let nodes = create_network(2, &node_cfgs, &node_chanmgrs);
+	*nodes[0].connect_style.borrow_mut() = ConnectStyle::FullBlockViaListen;
+	*nodes[1].connect_style.borrow_mut() = ConnectStyle::FullBlockViaListen;
+	let chan = create_announced_chan_between_nodes(&nodes, 0, 1);
+	let chan_id = chan.2;
+	send_payment(&nodes[0], &[&nodes[1]], 10_000_000);
+	let amt = if has_output { 3_000_000 } else { 100_000 };
+	let (src, dst) = if offered { (0, 1) } else { (1, 0) };
+	let (preimage, _, _, _) = route_payment(&nodes[src], &[&nodes[dst]], amt);
+	let cltv = {
+		let mon = nodes[src].chain_monitor.chain_monitor.get_monitor(chan_id).unwrap();
+		let mut c = 0i128;
+		for b in mon.get_claimable_balances() {
+			if let Balance::MaybeTimeoutClaimableHTLC { claimable_height, .. } = b {
+				c = claimable_height as i128;
+			}
+		}
+		c
+	};
+	if offered && known {
+		nodes[1].node.claim_funds(preimage);
+		let _ = nodes[1].node.get_and_clear_pending_msg_events(); // never delivered
+		let _ = nodes[1].node.get_and_clear_pending_events();
+	}
+	let commitment = {
+		let mon = nodes[0].chain_monitor.chain_monitor.get_monitor(chan_id).unwrap();
+		mon.unsafe_get_latest_holder_commitment_txn(&nodes[0].logger)[0].clone()
+	};
+	let vout = commitment.output.iter().position(|o| o.value.to_sat() == amt / 1000);
+	mine_transaction(&nodes[1], &commitment);
+	let txid = commitment.compute_txid();
+	let mon = nodes[1].chain_monitor.chain_monitor.get_monitor(chan_id).unwrap();
+	let claims = lightning::chain::channelmonitor::verif_hooks::tracked_claims(&mon);
+	let hit = vout.and_then(|v| claims.iter().find(|(t, o, _, _)| *t == txid && *o == v as u32));
+	let res = match hit {
+		Some((_, _, h, _)) => format!("1 {} {}", *h as i128 - cltv, vout.is_some() as u8),
+		None => format!("0 0 {}", vout.is_some() as u8),
+	};
+	drop(mon);
+	core::mem::forget(nodes);
+	res
+}
+
 fn main() {
 	if std::env::var("ORACLE_DEBUG").is_err() { std::panic::set_hook(Box::new(|_| {})); }
 	let stdin = std::io::stdin();
@@ -283,6 +338,7 @@ fn main() {
 			"monitor_reorg_probe" => monitor_reorg_probe(&mut args),
 			"htlc_timeout_probe" => htlc_timeout_probe(&mut args),
 			"revoked_htlc_claim_probe" => revoked_htlc_claim_probe(&mut args),
+			"counterparty_claim_probe" => counterparty_claim_probe(&mut args),
 			_ => format!("error unknown function {}", name),
 		}));
 		match r {
